@@ -33,8 +33,6 @@ package main
 //@ func RRVolumeManager.NextWritable trusted
 //@   modifies RRVolumeManager.counter
 //@ pure ctxlog.FromContext
-//@ func GetAPIToken trusted
-//@   modifies nothing
 //@ func contextForResponse trusted
 //@   modifies nothing
 //@ func getBufferWithContext trusted
@@ -280,7 +278,16 @@ package main
 // ------------------------------------------- C01: comparing a stored copy
 // One read step of compareReaderWithBuf (goroutine body; it has finished when
 // the select takes the `ready` branch - sync clause below).
-//@ func compareReaderWithBuf$1 property C01
+// io.Reader (documented behaviour): Read delivers the next n <= len(p) bytes of
+// the reader's stream into p[:n] and nothing else; io.EOF is reported only
+// when the whole stream has been delivered.
+//@ iface io.Reader.Read
+//@   modifies elems(p) ghost:stream
+//@   ensures 0 <= result0 && result0 <= len(p)
+//@   ensures cursor(self) == old(cursor(self)) + result0 && cursor(self) <= streamlen(self)
+//@   ensures forall k int :: 0 <= k && k < result0 ==> p[k] == streamat(self, old(cursor(self)) + k)
+//@   ensures result1 == io.EOF ==> cursor(self) == streamlen(self)
+//@ func compareReaderWithBuf$1 property C01,C02
 //@   requires cursor(rdr) >= 0
 //@   modifies elems(buf) ghost:stream
 //@   ensures 0 <= n && n <= len(buf)
@@ -295,7 +302,7 @@ package main
 // compareReaderWithBuf: nil is returned only if the stored stream is exactly
 // the expected bytes - same length, same content; a truncated, extended or
 // altered copy gives an error.
-//@ func compareReaderWithBuf property C01 safety -bounds,-makeslice
+//@ func compareReaderWithBuf property C01,C02 safety -bounds,-makeslice
 //@   requires cursor(rdr) == 0
 //@   sync go#1 at select#1
 //@   calls Context.Err#1: ensures $r != nil
@@ -425,3 +432,17 @@ package main
 // worker's volume manager and cluster configuration.
 //@ func RunTrashWorker property C04
 //@   calls TrashItem#1: requires $0 == volmgr && $2 == cluster && $3 == unbox(item, TrashRequest)
+
+// GetAPIToken: the token used for signing and verification is the bearer /
+// OAuth2 credential exactly as captured from the first Authorization value by
+// the pattern `^(OAuth2|Bearer)\s+(.*)` - the whole of it (v2 tokens are not
+// reduced to their secret part); no Authorization header, no token.
+//@ func GetAPIToken property C07 safety -bounds
+//@   # (auth[0]: net/http never stores a header key with an empty value list)
+//@   modifies nothing
+//@   ghost m []string = nil
+//@   calls Regexp.FindStringSubmatch#1: requires $recv == authRe && $0 == req.Header["Authorization"][0]
+//@   calls Regexp.FindStringSubmatch#1: set m = $r
+//@   ensures !has(req.Header, "Authorization") ==> result == ""
+//@   ensures has(req.Header, "Authorization") && m != nil ==> result == m[2]
+//@   ensures has(req.Header, "Authorization") && m == nil ==> result == ""
